@@ -59,10 +59,10 @@ def run_spec(ctx, tier, maxn, laws=True, name='orthopoly'):
     return recs
 
 
-def decode(rec):
+def decode(rec, guard=False):
     """exact Fractions of an emitted record"""
     return dict(fam=rec['fam'], a=Fraction(*rec['a']), b=Fraction(*rec['b']), n=rec['n'], pts=[Fraction(*p) for p in rec['pts']],
-                vals=[modq.to_fraction(v) for v in rec['vals']], ders=[modq.to_fraction(v) for v in rec['ders']])
+                vals=[modq.to_fraction(v, guard=guard) for v in rec['vals']], ders=[modq.to_fraction(v, guard=guard) for v in rec['ders']])
 
 
 def order_cls(n):
